@@ -160,6 +160,8 @@ func init() {
 		if w.App.AssetKeeper.HasAssetForDenom(ctx, ev.Args["denom"]) {
 			return fmt.Errorf("exists")
 		}
+		w.SetupPhase = true // writable context for the asset record
+		defer func() { w.SetupPhase = false }()
 		w.addAsset(ev.Args["name"], ev.Args["denom"], pow10(6), true, false)
 		return nil
 	}
